@@ -177,6 +177,29 @@ Theorem C11_bookmarks_follow : forall (s0 : state) (o : rebase_opts) ord (s' : s
       end.
 Proof. exact bookmarks_follow_model. Qed.
 
+(** Working copies follow (any ordering function, any records; distinct workspace names): a
+    workspace whose working-copy commit [k] has no rewrite record keeps it; with a Rewritten or
+    Divergent record it moves to the first commit of the full resolution of [k]; with an Abandoned
+    record it moves to a commit created by this call, without predecessor, whose parents are the
+    full resolution of [k]. (When the first commit of the resolution is the root, the
+    implementation panics instead: known finding wc-resolves-to-root; then there is no [s'].) *)
+Theorem C11_wc_follows : forall (s0 : state) (o : rebase_opts) ord (s' : state),
+  NoDup (map fst (v_wcs (s_v s0))) ->
+  rebase_descendants_with ord s0 o = Ok s' ->
+  exists s1 mapping, rebase_loop_with ord s0 o = Ok s1 /\
+    resolve_rewrite_mapping (s_pm s1) (fun _ => true) = Ok mapping /\
+    forall ws k, aget N.eqb ws (v_wcs (s_v s0)) = Some k ->
+      match aget Nat.eqb k mapping with
+      | Some nids =>
+          rewritten_ids_with (s_pm s1) (fun _ => true) [k] = Ok nids /\
+          exists c, wc_get (s_v s') ws = Some c /\
+            if is_abandoned (pm_get (s_pm s1) k)
+            then length (s_g s1) <= c /\ c_parents (getc (s_g s') c) = nids /\ c_preds (getc (s_g s') c) = []
+            else c = hd 0 nids
+      | None => wc_get (s_v s') ws = Some k
+      end.
+Proof. exact wc_follows_model. Qed.
+
 (** The order check run on every case means [valid_from]. *)
 Theorem C11_order_check_spec : forall s0 o order,
   valid_fromb (s_g s0) (s_pm s0) (find_descendants_for_rebase s0 (o_imm o)) [] order = true ->
@@ -223,5 +246,6 @@ Print Assumptions C11_no_orphans.
 Print Assumptions C11_no_orphans_impl_order.
 Print Assumptions C11_identity_kept.
 Print Assumptions C11_bookmarks_follow.
+Print Assumptions C11_wc_follows.
 Print Assumptions C11_wc_root_witness.
 Print Assumptions C11_no_orphans_loop.
